@@ -254,9 +254,11 @@ Definition b_module (its : list item) : res (list decl) :=
   | _ => bad "module"
   end.
 
-(* Module.parseString as a function of the grammar term *)
+(* Module.parseString as a function of the grammar term.  The fuel only bounds the recursion depth of the interpreter
+   (Parse/RoundTripModule.v shows that this much is enough for every file of the round-trip fragment). *)
+Definition text_fuel (text : string) : nat := 16 * String.length text + 100.
 Definition parse_module (g : grammar) (text : string) : res (list decl) :=
-  match parse_text g (String.length text + 60) text with
+  match parse_text g (text_fuel text) text with
   | Match [(_, VNode _ its)] _ => b_module its
   | Match _ _ => bad "top"
   | Fail => Err "ParseException"
